@@ -1,11 +1,11 @@
 (** Executable entry point of the stash model for the correspondence check.
 
-    The harness runs a scripted actor behind a gate: messages 0..M-1 are all queued before the first one
+    The harness runs a scripted actor behind a gate: the messages (numbered) are all queued before the first one
     is handled, the actor handles its mailbox in FIFO order, the d-th handled message (re-deliveries
     count) performs the d-th call list of the script (none once the script is used up); what a call
     un-stashes goes to the back of the mailbox.  When the mailbox has run dry the actor un-stashes
     everything that is left and handles it without further calls.
-    input  = ( M ( ( call ... ) ... ) )    call = 0 Stash | () Unstash() | (z) Unstash(z)
+    input  = ( ( id ... ) ( ( call ... ) ... ) )   the ids in sending order;    call = 0 Stash | () Unstash() | (z) Unstash(z)
     output = ( (id stash_count_after) ... ) in handling order.
     The mailbox is a plain FIFO list here (that the real mailbox is one is the other part of C02). *)
 From Coq Require Import List NArith ZArith.
@@ -35,12 +35,11 @@ Fixpoint stash_sim (script : list (list sop)) (queue stash : list N) : list (N *
 
 Definition run_stash (t : tm) : tm :=
   match t with
-  | TL [TN m; sc] =>
-      match get_list (get_list get_sop) sc with
-      | Some script =>
-          tlist (fun p => TL [TN (fst p); TN (N.of_nat (snd p))])
-                (stash_sim script (map N.of_nat (seq 0 (N.to_nat m))) [])
-      | None => tm_err 1
+  | TL [ids; sc] =>
+      match get_list get_n ids, get_list (get_list get_sop) sc with
+      | Some ids, Some script =>
+          tlist (fun p => TL [TN (fst p); TN (N.of_nat (snd p))]) (stash_sim script ids [])
+      | _, _ => tm_err 1
       end
   | _ => tm_err 0
   end.
